@@ -233,8 +233,9 @@ def run(ctx):
     # the returned connection, and with it the routing maps) must not do so while a caller still waits for a reply: the waiting
     # operation's sender would stay alive inside the kept connection and the operation would hang instead of failing.  Decided on
     # the paths of the code that follows the driver loop (and of any `return Ok(..)` inside an arm): whenever such a path returns
-    # Ok with the driver in it and the path is possible in a mode other than the continuous one, it has established that the
-    # result map is empty.  (`drive()`, the continuous mode's only caller, discards the value, which drops the maps.)
+    # Ok with the driver in it and the path is possible in a mode other than the continuous one, a reply has been handed to the operation: a flag is set which starts false and is set only where the response arm hands a reply to the
+    # sender taken out of the result map (an empty result map is not enough: the request may not have been taken from the request
+    # channel yet when the peer closes).  (`drive()`, the continuous mode's only caller, discards the value, which drops the maps.)
     import driver as drv
     modes = [it for it in f.items.values() if it.get('kind') == 'Enum' and it['path'].startswith('ldap3::conn::') and
              any(it['path'] in (inp or '') for inp in (f.items.get(C.loop_path, {}).get('inputs') or []))]
@@ -272,12 +273,35 @@ def run(ctx):
                 if a[0] == 'is' and a[1][0] == 'param' and a[2].startswith(mode_ty.rsplit('::', 1)[-1] + '::') and a[2].rsplit('::', 1)[-1] not in cont_variants and t is False and len(modes[0]['variants']) == 2:
                     return True
             return False
+        def answered_flag(b):
+            """The local b is a flag that starts false and is only ever set to true in the response arm, on the branch that took a
+            waiting operation's sender out of the result map (i.e. it records that the operation's reply has been handed over)."""
+            d = L.defs.get(b)
+            if d is None or d.get('src') is None or hirq.const_eval(f, d['src']) is not False:
+                return False
+            asg = L.assigns.get(b, [])
+            if not asg:
+                return False
+            for a in asg:
+                if a['k'] != 'Assign' or hirq.const_eval(f, a['r']) is not True:
+                    return False
+                under = False
+                for cd in hirq.conditions(L.context(a)):
+                    if cd[0] == 'if' and cd[2] == 'then' and cd[1]['cond']['k'] == 'LetExpr' and hirq.pat_variant(cd[1]['cond']['pat']) == 'Some':
+                        init = cd[1]['cond']['init']
+                        if init.get('k') == 'MethodCall' and init.get('name') == 'remove' and C.is_map_place(init['recv'], 'result'):
+                            under = True
+                if not under:
+                    return False
+            return True
         def no_waiter(o):
+            # (a) a flag that records "the reply has been handed over" is set on this path
             for a, t in o.st.pc:
-                a2 = drv.norm_self(a)
-                if a2[0] == 'call' and a2[1].rsplit('::', 1)[-1] == 'is_empty' and a2[2] and a2[2][0] == ('field', drv.SELF, C.resultmap) and t is True:
+                if a[0] == 'unbound' and t is True and answered_flag(a[1]):
                     return True
-                if a2[0] == 'bin' and a2[1] == 'Eq' and a2[3] == ('lit', 0) and a2[2][0] == 'call' and a2[2][1].rsplit('::', 1)[-1] == 'len' and a2[2][2] and a2[2][2][0] == ('field', drv.SELF, C.resultmap) and t is True:
+            # (b) the path itself (a `return Ok(..)` inside the response arm) has handed a reply to a sender taken out of the result map
+            for i, args, node in drv.sends(o, anchors.T_RESULT_SENDER):
+                if sem.has(args[0], lambda x: x[0] == 'call' and x[1].rsplit('::', 1)[-1] in ('remove', 'remove_entry') and x[2] and drv.norm_self(x[2][0]) == ('field', drv.SELF, C.resultmap)):
                     return True
             return False
         for o in tail_outs + arm_rets:
@@ -286,7 +310,7 @@ def run(ctx):
             keeps.append(o)
             ctx.add('L6.handed-back-connection-holds-no-waiter', 'after the loop|%s' % ','.join(('' if t else '!') + absx.fmt(a)[-40:] for a, t in o.st.pc)[:100], loc(main_loop), no_waiter(o),
                     'in the one-operation mode the driver returns the connection to a caller that keeps it (StartTLS set-up) on a path that has not '
-                    'established that no reply is owed: when the peer closes, or sends something else, before answering, the pending operation\'s sender '
+                    'established that the operation was answered: when the peer closes, or sends something else, before answering, the pending operation\'s sender '
                     'stays alive in the returned connection and connection establishment waits forever')
         ctx.floor('L6', 'paths handing the connection back outside the continuous mode', len(keeps), 1)
 
